@@ -107,10 +107,12 @@ def p2(ctx):
     f = ctx.method('Cache', '__init__')
     res = {'layering': False, 'settings-replace': False, 'metadata-ignore': False, 'metadata-stripped': False,
            'stored-read': False, 'metadata-always-seeded': True}
+    stripped_other = False
     for p in ctx.paths(f, 'plain'):
         if p.kind == 'cut':
             continue
         tr = p.trace
+        written, written_at = set(), []
         updates = [e for e in tr if e.kind == 'MCALL' and e.d['name'] == 'update']
         copies = [e for e in tr if e.kind == 'MCALL' and e.d['name'] == 'copy']
         sel = [e for e in sql_events(tr, 'select', 'Settings')]
@@ -139,6 +141,11 @@ def p2(ctx):
             else:
                 if e.d['stmt'].conflict == 'replace':
                     res['settings-replace'] = True
+                    # the mapping whose items are written back
+                    for x in values_in(it):
+                        if x.k == 'mcall' and x.a[0] == 'items' and isinstance(x.a[1], int):
+                            written.add(tr[x.a[1]].d.get('recv'))
+                            written_at.append(fors[-1].seq)
         if p.kind in ('return', 'next'):
             seeded = [e for e in sql_events(tr, 'insert', 'Settings') if e.d['stmt'].conflict in ('ignore', 'replace')
                       and e.d.get('params') and not isinstance(e.d['params'], V)
@@ -155,14 +162,21 @@ def p2(ctx):
         for e in pops:
             fors = [x for x in tr[:e.seq] if x.kind == 'FOR' and x.d['it'] == 1]
             if fors and _is_metadata_iter(fors[-1].d['iter']):
-                res['metadata-stripped'] = True
+                # ... from the mapping that is written back (merged defaults < stored < arguments), before the write
+                if written and e.d.get('recv') in written and e.seq < min(written_at):
+                    res['metadata-stripped'] = True
+                elif written:
+                    stripped_other = True
+    if stripped_other and not res['metadata-stripped']:
+        pass
     msgs = {
         'layering': 'settings are not layered defaults < stored < constructor arguments: reopening would reset stored '
                     'settings to defaults (or ignore explicit arguments)',
         'settings-replace': 'settings are not written back with INSERT OR REPLACE',
         'metadata-ignore': 'the count/size/hits/misses rows are not inserted with OR IGNORE: every reopen would zero '
                            'the counters of an existing cache',
-        'metadata-stripped': 'counter names are not stripped from the settings: a stored/explicit `count` would '
+        'metadata-stripped': 'counter names are not stripped from the merged mapping that is written back (defaults < '
+                             'stored < arguments), before the write: a stored/explicit `count` would '
                              'overwrite the trigger-maintained value',
         'stored-read': 'stored settings are not read back on open',
         'metadata-always-seeded': 'the count/size/hits/misses rows are seeded only on some paths of __init__ (e.g. only '
@@ -458,4 +472,56 @@ def p3(ctx):
         obs.append(Ob('P3', k, ok, 'on-disk format fact %s is %r in the current tree but %r in the released format: '
                       'directories written by the released version would no longer be found/read' %
                       (k, b.get(k, '<absent>'), a.get(k, '<absent>')), 'diskcache/core.py:1'))
+    return obs
+
+
+# ---------------------------------------------------------------------- P5
+@rule('P5', floor=20, title='statements name only schema objects that every handle is guaranteed to find (tables/indexes created '
+                            'unconditionally by __init__ and never dropped)')
+def p5(ctx):
+    """A handle's cached copy of a setting says nothing about what another handle did to the database file: a
+    statement that names an optional index (INDEXED BY) or table fails with "no such index/table" once another
+    handle has dropped it."""
+    from .rules_lock import core_entries
+    init = ctx.method('Cache', '__init__')
+    always = None       # objects created on every normal path of __init__
+    for p in ctx.paths(init, 'plain'):
+        if p.kind not in ('return', 'next'):
+            continue
+        made = set()
+        for e in sql_events(p.trace):
+            st = e.d['stmt']
+            if st is not None and st.kind == 'create_table':
+                made.add(('table', st.table))
+            if st is not None and st.kind == 'create_index' and st.name:
+                made.add(('index', st.name))
+        always = made if always is None else (always & made)
+    if not always:
+        raise AnalysisError('P5: no schema object is created on every path of Cache.__init__')
+    dropped = set()
+    uses = {}
+    for f in core_entries(ctx):
+        for p in ctx.paths(f, 'default'):
+            for e in sql_events(p.trace):
+                st = e.d['stmt']
+                if st is None:
+                    continue
+                if st.kind == 'drop_index':
+                    dropped.add(('index', st.name))
+                for s in (st, st.subselect if isinstance(st.subselect, sqlmod.Stmt) else None):
+                    if s is None:
+                        continue
+                    if s.kind in ('select', 'insert', 'update', 'delete') and s.table and '⟦' not in str(s.table):
+                        uses.setdefault((e.fn.qual, 'table', s.table), e)
+                    if s.indexed_by:
+                        uses.setdefault((e.fn.qual, 'index', s.indexed_by), e)
+    obs = []
+    for (q, kind, name), e in sorted(uses.items(), key=lambda kv: kv[0]):
+        ok = (kind, name) in always and (kind, name) not in dropped
+        obs.append(Ob('P5', '%s/%s:%s' % (q.replace('core.', ''), kind, name), ok,
+                      'the statement names %s %s, which is not created unconditionally by Cache.__init__%s: whether it '
+                      'exists is decided by other handles on the directory, not by this object\'s cached settings, so '
+                      'the statement can fail with "no such %s"' %
+                      (kind, name, ' (and is dropped by another method)' if (kind, name) in dropped else '', kind),
+                      e.fn.loc(e.node)))
     return obs
